@@ -192,6 +192,16 @@ impl Config {
 impl From<cli::Opt> for Config {
     fn from(opt: cli::Opt) -> Self {
         let mut styles = parse_styles::parse_styles(&opt);
+        if opt.color_only {
+            // --color-only must emit exactly one line per input line, so nothing may be decorated.
+            // set_options resets the *-decoration-style options, but a style string can ask for
+            // a decoration too (e.g. file-style = "yellow box").
+            for name in ["commit-style", "file-style", "hunk-header-style"] {
+                if let Some(style) = styles.get_mut(name) {
+                    style.decoration_style = style::DecorationStyle::NoDecoration;
+                }
+            }
+        }
         let styles_map = parse_styles::parse_styles_map(&opt);
 
         let wrap_config = WrapConfig::from_opt(&opt, styles["inline-hint-style"]);
